@@ -77,6 +77,7 @@ class Runner:
         for name, (num, den) in sorted(prog['clocks'].items()):
             self.clocks[name] = clk.TempoClock(num / den)
         self.routines = {}
+        self.elems = {}
         self.conds = {}
         self.addr = addr
         seeds = [i['a'] for body in prog['routines'].values() for i in body if i['op'] in ('K', 'KC')]
@@ -125,12 +126,12 @@ class Runner:
             self.addr.send_msg(tag, 1)
             return
         lat = None if i['b'] == 1 else i['a'] / TU
+        # user code often keeps a message / bundle list and sends it again: the element lists are built once
+        # per tag and the SAME objects are passed on every send of that tag
+        if tag not in self.elems:
+            self.elems[tag] = [[tag, 1]] if i['nk'] == 0 else [[tag, 1], [None if i['nk'] == 2 else i['na'] / TU, [tag, 2]]]
         try:
-            if i['nk'] == 0:
-                self.addr.send_bundle(lat, [tag, 1])
-            else:
-                sub = None if i['nk'] == 2 else i['na'] / TU
-                self.addr.send_bundle(lat, [tag, 1], [sub, [tag, 2]])
+            self.addr.send_bundle(lat, *self.elems[tag])
         except ValueError:
             self.ev.append(E('refused', r=name, tag=tag))
 
